@@ -1,6 +1,7 @@
 import Pfst.JsonUtil
 import Pfst.ParseWrap
 import Pfst.SeqFix
+import Pfst.TrailSep
 /-! Driver package for C05: `_astloc_from_src`, `_offset_linenos`, fragment rebasing, `_verify_no_close_delimiters`,
 delimiter depth / matching. -/
 namespace Pfst.Drv.C05
@@ -81,6 +82,12 @@ def dispatch (f : String) (j : Json) : Option Json :=
       let some ln := getInt j "lineno" | return Json.mkObj [("err", "bad lineno")]
       let (o, c) := delims j
       return locJson (Pfst.SeqFix.fixSeq (ls.map String.toList) e0 en e1 ae ln o c)
+  | "C05.trailing_sep" => some <| Id.run do
+      let some src := getStr j "src" | return Json.mkObj [("err", "bad src")]
+      let some ln := getNat j "end_lineno" | return Json.mkObj [("err", "bad end_lineno")]
+      let some col := getNat j "end_col" | return Json.mkObj [("err", "bad end_col")]
+      let sep := match (getStr j "sep").map String.toList with | some [c] => c | _ => ','
+      return Json.bool (Pfst.TrailSep.hasTrailingSep sep src.toList ln col)
   | "C05.span" => some <| Id.run do
       -- text of a span inside the wrapper vs inside the source (both sides of `wrap_positions`)
       let some pre := getStr j "pre" | return Json.mkObj [("err", "bad pre")]
